@@ -26,7 +26,7 @@ class LdcLdc2Literal(Opcode):
                                                                          self.imm32, 32)
                     address = offset_addr if self.index else align(processor.registers.get_pc(), 4)
                     first_pass = True
-                    while first_pass or processor.coproc_done_loading(self.cp, processor.this_instr()):
+                    while first_pass or not processor.coproc_done_loading(self.cp, processor.this_instr()):
                         first_pass = False
                         processor.coproc_send_loaded_word(processor.mem_a_get(address, 4), self.cp,
                                                           processor.this_instr())
